@@ -1,8 +1,8 @@
 (* Property C02, log clauses (principal range, exp(log g) = g, log(exp a) = a): property theorems only. *)
 From Coq Require Import Reals List Lra.
-From SV Require Import Base.GenPrelude Base.Mat Base.Trig Doc.Groups.
+From SV Require Import Base.GenPrelude Base.Mat Base.Trig Base.KernelL Doc.Groups.
 From SV Require Gen.SO2 Gen.SO3 Gen.SE2 Gen.C1.
-From SV Require Proofs.C02_Log Proofs.C02_LogSO3 Proofs.C02_LogSE2 Proofs.C02_LogC1.
+From SV Require Proofs.C02_Log Proofs.C02_LogSO3 Proofs.C02_LogSE2 Proofs.C02_LogC1 Proofs.C02_TruncLog.
 Import ListNotations.
 Local Open Scope R_scope.
 
@@ -67,3 +67,14 @@ Theorem C02_c1_log_exp : forall a0 a1 g out,
   - PI < a1 <= PI -> Gen.C1.c1_exp_rel [a0; a1] g -> Gen.C1.c1_log_rel g out -> out = [a0; a1].
 Proof. exact Proofs.C02_LogC1.c1_log_exp. Qed.
 Print Assumptions C02_c1_log_exp.
+
+(* SE2 log below the switch: the series path is the closed-form path with (th/2)/tan(th/2) replaced by 1 - th^2/12 *)
+Theorem C02_se2_log_trunc : forall g0 g1 g2 g3,
+  let th := atan2 g2 g3 in
+  0 < th * th < eps2 ->
+  Gen.SE2.se2_log_p1 [g0; g1; g2; g3] = Proofs.C02_TruncLog.se2_log_form (T_L (th * th)) g0 g1 th /\
+  Gen.SE2.se2_log_p0 [g0; g1; g2; g3] = Proofs.C02_TruncLog.se2_log_form (K_L th) g0 g1 th /\
+  Gen.SE2.se2_log_c1 [g0; g1; g2; g3] /\
+  - (eps2 * eps2 / 600) <= K_L th - T_L (th * th) <= 0.
+Proof. exact Proofs.C02_TruncLog.se2_log_trunc. Qed.
+Print Assumptions C02_se2_log_trunc.
